@@ -211,3 +211,28 @@ func vh_C20_bshl128() {
 	X, Y, Z, T := pinPoint(constB_SHL_128)
 	verif.Assert(modP(cx.Mul(Z), X.Mul(verif.IntK(2))) && modP(cy.Mul(Z), Y.Mul(verif.IntK(2))) && modP(T.Mul(Z), X.Mul(Y)), "constB_SHL_128 = [2^128]B")
 }
+
+// ---- the byte-array constants of the other two encodings, tied to the base point ----
+// X25519_BASEPOINT is u = (1 + y)/(1 - y) of B (= 9); RISTRETTO_BASEPOINT_COMPRESSED is a canonical non-negative s
+// whose RFC 9496 decoding lies in the coset of B: with y' = (1 - s^2)/(1 + s^2) and x'^2 = 4 s^2 / v,
+// v = -d (1 - s^2)^2 - (1 + s^2)^2, the (squared) Ristretto equality y_B y' = x_B x' holds; RISTRETTO_BASEPOINT_POINT
+// is B itself.
+//
+//verif:ob prop=C20,C11,C07 name=basepoint_byte_constants mode=int tags=purego,force32bit
+func vh_C20_bytes() {
+	P := field.VerifP()
+	d := pinFe(&constEDWARDS_D)
+	X, Y, _, _ := pinPoint(ED25519_BASEPOINT_POINT)
+	one := verif.IntK(1)
+	u := verif.IntLE(X25519_BASEPOINT[:])
+	verif.Assert(u.Lt(P) && modP(u.Mul(one.Sub(Y)), one.Add(Y)), "X25519_BASEPOINT = (1 + y)/(1 - y) of the base point")
+	verif.Assert(u.Eq(verif.IntK(9)), "X25519_BASEPOINT = 9")
+	s := verif.IntLE(RISTRETTO_BASEPOINT_COMPRESSED[:])
+	verif.Assert(s.Lt(P) && s.Mod(verif.IntK(2)).Eq(verif.IntK(0)), "RISTRETTO_BASEPOINT_COMPRESSED: canonical, non-negative s")
+	ss := s.Mul(s)
+	u1, u2 := one.Sub(ss), one.Add(ss)
+	v := d.Neg().Mul(u1).Mul(u1).Sub(u2.Mul(u2))
+	verif.Assert(modP(Y.Mul(Y).Mul(u1).Mul(u1).Mul(v), X.Mul(X).Mul(verif.IntK(4)).Mul(ss).Mul(u2).Mul(u2)), "RISTRETTO_BASEPOINT_COMPRESSED decodes into the coset of the base point")
+	rx, ry, rz, rt := pinPoint(&RISTRETTO_BASEPOINT_POINT.inner)
+	verif.Assert(modP(rx, X) && modP(ry, Y) && modP(rz, one) && modP(rt, X.Mul(Y)), "RISTRETTO_BASEPOINT_POINT is the base point")
+}
